@@ -18,16 +18,25 @@ type verifRemote struct {
 	createFail bool
 	inserted   map[string]int
 	sideEffect int
+	servers    []string
+	misrouted  int // shard requests addressed to a server that is not the shard's rendezvous owner
 	deletedRecords   []string
 	deletedShardDirs []string
 }
 
 var verifRemoteScript *verifRemote
 
+func (r *verifRemote) addressed(shardId string, args Destinationer) {
+	if r.servers != nil && args.Destination() != RendezvousHash(shardId, r.servers, 1)[0] {
+		r.misrouted++
+	}
+}
+
 func (r *verifRemote) handle(remoteFn string, args Destinationer, reply any) error {
 	switch remoteFn {
 	case "ClusterNode.RPCGetShardInfo":
 		a, rep := args.(*RPCGetShardInfoRequest), reply.(*RPCGetShardInfoResponse)
+		r.addressed(a.ShardId, args)
 		if r.infoFails[a.ShardId] {
 			return errVerifTransport
 		}
@@ -44,6 +53,7 @@ func (r *verifRemote) handle(remoteFn string, args Destinationer, reply any) err
 		return nil
 	case "ClusterNode.RPCInsertPoints":
 		a := args.(*RPCInsertPointsRequest)
+		r.addressed(a.ShardId, args)
 		r.sideEffect++
 		if r.insertFail[a.ShardId] {
 			return errVerifTransport
@@ -104,9 +114,9 @@ func remoteName(base string, servers []string) string {
 var verifNewShardNames []string
 
 func VerifInsertPointsQuota() {
-	servers := []string{"self", "other"}
+	servers := []string{"self", "other", "third"}[:vparam("SERVERS", 2)]
 	c := &ClusterNode{Servers: servers, MyHostname: "self", cfg: ClusterNodeConfig{MaxShardSize: 1 << 40, MaxShardPointCount: int64(nondetIntRange(1, 3))}}
-	r := &verifRemote{counts: map[string]int64{}, infoFails: map[string]bool{}, insertFail: map[string]bool{}, inserted: map[string]int{}}
+	r := &verifRemote{counts: map[string]int64{}, infoFails: map[string]bool{}, insertFail: map[string]bool{}, inserted: map[string]int{}, servers: servers}
 	verifRemoteScript = r
 	verifNodes = map[string]*ClusterNode{}
 	defer func() { verifRemoteScript, verifNodes = nil, nil }()
@@ -143,6 +153,7 @@ func VerifInsertPointsQuota() {
 	}
 	failed, err := c.InsertPoints(col, points)
 	vcover("reached")
+	vassert("every-shard-request-is-addressed-to-the-shards-rendezvous-owner", r.misrouted == 0)
 	if anyInfoFail {
 		vassert("unavailable-shard-refuses-the-insert-without-side-effects", err != nil && r.sideEffect == 0)
 		return
